@@ -21,6 +21,7 @@ inductive PClass
   | refRef         -- `&&u32`
   | mutRef         -- `&mut u32`
   | mutDyn         -- `&mut dyn core::fmt::Debug`: a `&mut` to a trait object (no lifetime spelled out: matched like any `&mut`)
+  | mutStatic      -- `&'static mut u32`: a lifetime spelled on the `&mut` itself, none inside the pointee (not `Impossible`: only the pointee counts)
   | mutImpossible  -- `&mut Vec<&'static u32>`: a `&mut` whose pointee mentions a lifetime
   | slice          -- `&[u32]`
   | genT           -- `T`, the trait's type parameter
@@ -205,6 +206,7 @@ def inputType : PClass → String
   | .refRef => "&'__i&'__iu32"
   | .mutRef => "&'__imutu32"
   | .mutDyn => "&'__imutdyncore::fmt::Debug"
+  | .mutStatic => "&'staticmutu32"
   | .mutImpossible => impossible
   | .slice => "&'__i[u32]"
   | .genT => "T"
@@ -219,6 +221,7 @@ def debugExpr (p : Param) : String :=
   | .refRef => s!"(**{p.name}).unimock_try_debug()"
   | .mutRef => s!"(&*{p.name}).unimock_try_debug()"
   | .mutDyn => s!"(&*{p.name}).unimock_try_debug()"
+  | .mutStatic => s!"(&*{p.name}).unimock_try_debug()"
   | .mutImpossible => s!"(&*{p.name}).unimock_try_debug()"
   | .slice => s!"{p.name}.unimock_try_debug()"
   | .genT | .genU | .implInto _ => s!"{p.name}.unimock_try_debug()"
@@ -249,6 +252,7 @@ def answerParamType : PClass → String
   | .refRef => "&&u32"
   | .mutRef => "&mutu32"
   | .mutDyn => "&mutdyncore::fmt::Debug"
+  | .mutStatic => "&'staticmutu32"
   | .mutImpossible => "&mutVec<&'staticu32>"
   | .slice => "&[u32]"
   | .genT => "T"
